@@ -1,10 +1,14 @@
 /-
   Driver ops for C16 (one follower session against one leader state):
 
-    sess <bk> <L> <F> <ch> <cut> <lost> <fuel>
+    sess <bk> <Ls> <views> <F> <ch> <cut> <lost> <fuel>
       bk   : d | m                       (disk StoreChannel / MemoryChannel)
-      L    : <started>:<ids>:<cur>:<data>:<wopen>:<tail>   ids comma separated, `.` = none;
+      Ls   : leader states separated by `;`, each
+             <serving>:<started>:<ids>:<cur>:<data>:<wopen>:<tail>   ids comma separated, `.` = none;
              tail = hex bytes appended to the leader once a stream reader is open
+      views: per request of the session (handshake first) the indices a.b.c.d into Ls of the
+             state read at the gate/self inspection, at StartPoint, at IsValidOffset, at
+             NewReader; requests beyond the list read the last state listed
       F    : <cur>|<id>=<data>|…                      `_` = empty id
       data : `-` (nothing) | <base>/<hex bytes>/<hex snapshot | ~>
       ch   : `.` | n,n,…                 sizes of the CONTINUE chunks as observed
@@ -38,10 +42,10 @@ def parseIds (s : String) : List Id :=
 
 def parseLeader (s : String) : Option (Leader UInt8) :=
   match s.splitOn ":" with
-  | [st, ids, cur, d, w, tl] => do
+  | [sv, st, ids, cur, d, w, tl] => do
     let data ← parseData d
     let tail ← Hex.decode tl
-    pure ⟨st == "1", parseIds ids, idOf cur, data, w == "1", tail⟩
+    pure ⟨sv == "1", st == "1", parseIds ids, idOf cur, data, w == "1", tail⟩
   | _ => none
 
 def parseEntry (s : String) : Option (Id × Option (Data UInt8)) :=
@@ -60,6 +64,20 @@ def parseStore (s : String) : Option (Store UInt8) :=
 
 def parseNats (s : String) : Option (List Nat) :=
   if s == "." then some [] else (s.splitOn ",").mapM (·.toNat?)
+
+def parseView (ls : Array (Leader UInt8)) (s : String) : Option (View UInt8) :=
+  match (s.splitOn ".").mapM (·.toNat?) with
+  | some [a, b, c, d] => do
+    pure ⟨← ls[a]?, ← ls[b]?, ← ls[c]?, ← ls[d]?⟩
+  | _ => none
+
+def mkViews (ls : Array (Leader UInt8)) (vs : Array (View UInt8)) (n : Nat) : View UInt8 :=
+  match vs[n]? with
+  | some v => v
+  | none =>
+    match vs.back? with
+    | some v => View.const v.l4
+    | none => View.const (ls[0]?.getD ⟨false, false, [], "", none, false, []⟩)
 
 def showData : Option (Data UInt8) → String
   | none => "-"
@@ -89,16 +107,19 @@ def showCls : Cls → String
   | .discont => "discont" | .fuel => "fuel"
 
 def handle : List String → Option (List String)
-  | ["sess", bk, l, f, ch, cut, lost, fuel] =>
+  | ["sess", bk, l, vw, f, ch, cut, lost, fuel] =>
     let r : Option (List String) := do
       let bk ← if bk == "d" then some Backend.disk else if bk == "m" then some Backend.mem else none
-      let L ← parseLeader l
+      let ls ← (l.splitOn ";").mapM parseLeader
+      let ls := ls.toArray
+      let vs ← if vw == "." then some [] else (vw.splitOn ",").mapM (parseView ls)
+      let vs := vs.toArray
       let F ← parseStore f
       let ch ← parseNats ch
       let cut ← cut.toNat?
       let lost ← lost.toNat?
       let fuel ← fuel.toNat?
-      let o := session bk L F ch cut lost fuel
+      let o := sessionV bk (mkViews ls vs) F ch cut lost fuel
       pure (o.trace.map showMsg ++ [s!"end {showStage o.stage} {showCls o.cls}", "F " ++ showStore bk o.store])
     some (r.getD ["bad-op"])
   | _ => none
